@@ -61,21 +61,23 @@ CHECKS = {
         text="Tui.tla models the line editor, completion, history, notification, command language and session keys. TLC explores all key sequences up to "
              "length 3 (thorough 4) over 21 keys with EditorOk; each is typed into the real session (real handle_event, real Interface drawn after every key) "
              "and the editor compared; command lines (all commands, radices, case/spacing, values around 255/256, trailing garbage) are submitted and "
-             "validated by TraceTui incl. the machine effect; random key streams at 8 sizes and a sweep over all terminal sizes for 4 states.",
+             "validated by TraceTui incl. the machine effect - `load PATH` of readable program files included (TraceTui!LoadedFrom composes Mrasm.tla, Asm.tla and "
+             "Machine!LoadF); a session of more than 1000 submitted lines; random key streams at 8 sizes, long lines with the cursor at every position, and a sweep over "
+             "all terminal sizes for 4 states and 7 sessions with a loaded program file.",
         design_ref="DESIGN.md section 3 C17, Appendix D",
         note="Trusted: TLC; Tui.tla's reading of the documented commands; TestBackend; debug-profile binary (overflow checks on). Unspecified: float spellings "
-             "beyond digits[.digits<=3], 0X/0B, successful load, which candidate BackTab selects, file-name completion.",
+             "beyond digits[.digits<=3], 0X/0B, which candidate BackTab selects, file-name completion, load of files the check did not write.",
         technique="TLC BFS over key sequences replayed into the real TUI + TLA+ trace validation of scripted sessions",
     ),
     "C04": dict(
         category="model_checking",
-        text="TLC runs two main x interrupt-routine programs on Micro.tla (control store from the tree) with the key pressed before EVERY clock cycle "
+        text="TLC runs four main x interrupt-routine programs (incl. a routine that re-enables interrupts and is entered again while running) on Micro.tla (control store from the tree) with the key pressed before EVERY clock cycle "
              "(and every pair within a window): the routine is entered only from an int: word after a sampling point, every effective press is consumed "
              "exactly once, presses made while enabled are entered unless the program itself disables interrupts first, the routine's counter equals the "
              "entries, and the final registers/flags/SP/outputs/live memory equal the uninterrupted run. Every schedule is replayed on the real machine and "
              "the full final state (private fields included) compared; a sample is validated edge by edge.",
         design_ref="DESIGN.md section 3 C04",
-        note="Trusted: TLC; sampling semantics (a press during DI or the entry sequence is dropped/deferred); masking of dead stack slots and the counter cell; two programs.",
+        note="Trusted: TLC; sampling semantics (a press during DI or the entry sequence is dropped/deferred); masking of dead stack slots and the counter cell; four programs.",
         technique="TLC BFS over all trigger cycles with history variables + replay of every TLC schedule on the real machine + trace validation",
     ),
     "C05": dict(
@@ -156,7 +158,7 @@ CHECKS = {
              "write-address pairs; every enumerated case is forced onto the real Bus and the signature of all cells C10 names is compared; random "
              "read/write/set-input sequences of the real Bus are validated event by event against the specification.",
         design_ref="DESIGN.md section 3 C10",
-        note="Trusted: TLC; the harness's signature/projection code; three pre-states (empty, busy, board-configured) as the state quantifier.",
+        note="Trusted: TLC; the harness's signature/projection code; five pre-states (empty, busy, board-configured, board interrupt raised with IE clear, comparators stale after a master reset) as the state quantifier; the signature includes the board status registers after every write.",
         technique="TLC exhaustive enumeration over (pre-state, address, byte) and address pairs, replayed into the real Bus; TLA+ trace validation of random op sequences",
     ),
     "C14": dict(
@@ -167,7 +169,7 @@ CHECKS = {
              "interleavings are trace-validated with the state invariant evaluated at every step.",
         design_ref="DESIGN.md section 3 C14",
         note="Trusted: TLC; millivolt-grid abstraction of f32 (exactness of the grid comparison and of the fan rpm formula measured over their whole "
-             "domain); Board::verif_restore hook; fan period tolerance of one count.",
+             "domain); Board::verif_restore hook; fan period tolerance of one count; below the grid the comparator rule is checked Rust-side against the board's own reported input / DAC voltage (+-3 ulp around every DAC voltage).",
         technique="TLC BFS over board states with per-action properties, every transition replayed on the real board; trace validation; Rust-side f32 class sweep",
     ),
     "C08": dict(
@@ -176,7 +178,7 @@ CHECKS = {
              "serialises the reference table; the harness compares AluOutput::from_input with it on every point. Complete for "
              "this finite function, so nothing stronger is needed.",
         design_ref="DESIGN.md section 3 C08",
-        note="Trusted: TLC + CommunityModules Bitwise, the reading of the AluSelect doc comments encoded in Alu.tla, the harness's packing of the four AluOutput getters.",
+        note="Trusted: TLC + CommunityModules Bitwise, the reading of the AluSelect doc comments encoded in Alu.tla, the harness's packing of the four AluOutput getters; every point is evaluated in six call orders (a result that depends on earlier calls is a violation).",
         technique="TLA+ reference table (TLC, exhaustive) replayed into the real ALU on the whole domain",
     ),
 }
